@@ -64,6 +64,7 @@ import (
 	"fmt"
 	"io"
 	"os"
+	"sort"
 	"sync"
 	"time"
 )
@@ -622,6 +623,13 @@ func (s *persistentHybridSearch) Execute() ([]HybridSearchResult, error) {
 
 	// Merge and deduplicate results by keeping highest score per doc
 	merged := mergeResults(allResults)
+
+	// For vector-only queries the score is a distance: keep the k nearest
+	// before applying the usual descending order
+	if s.vectorQuery != nil && len(s.textQueries) == 0 && len(merged) > s.k {
+		sort.Slice(merged, func(i, j int) bool { return merged[i].Score < merged[j].Score })
+		merged = merged[:s.k]
+	}
 
 	// Sort by score descending and limit to k
 	sortResultsByScore(merged)
